@@ -130,8 +130,11 @@ def main():
     idx = 0
     for r in range(rounds):
         for j in range(JOBS):
-            jobs.append({"lane": "miri", "workload_seed": SEED, "first": idx * per_job, "n": per_job, "miri_seed": SEED % 100000 + idx,
-                         "variant": idx, "tree_borrows": thorough and r % 3 == 2, "mode": "threads-only" if idx % 4 == 3 else ""})
+            threads_only = idx % 4 == 3
+            # (what thread histories look for needs a particular interleaving: a few more of them)
+            n = (per_job + 2 if not thorough else per_job * 2) if threads_only else per_job
+            jobs.append({"lane": "miri", "workload_seed": SEED, "first": idx * per_job * 3, "n": n, "miri_seed": SEED % 100000 + idx,
+                         "variant": idx, "tree_borrows": thorough and r % 3 == 2, "mode": "threads-only" if threads_only else ""})
             idx += 1
     # ASan lane: many more histories, all six codecs
     asan_n = 1500 if not thorough else 120000
